@@ -448,12 +448,24 @@ def check(ctx, report):
 def class_constant_template(model, c, t):
     """``self.NAME`` / ``cls.NAME`` / ``Class.NAME`` where every binding of NAME in the class bodies of the family of ``c`` (its
     bases, the class, its subclasses) is a string literal: the template is a constant of the source, chosen by the class"""
+    table = False
+    if isinstance(t, ast.Subscript) and isinstance(t.value, ast.Attribute):
+        # ``self.TABLE[key]`` / ``self.TABLE.get(key)``: every value of the class level mapping (or item of the tuple) is a literal
+        t, table = t.value, True
+    elif isinstance(t, ast.Call) and isinstance(t.func, ast.Attribute) and t.func.attr == 'get' and isinstance(t.func.value, ast.Attribute) and \
+            len(t.args) == 1 and not t.keywords:
+        t, table = t.func.value, True
     if not (isinstance(t, ast.Attribute) and isinstance(t.value, ast.Name) and c is not None):
         return False
     if t.value.id not in ('self', 'cls') and model.try_cls(t.value.id) is None:
         return False
     family = [k for k in c.mro if isinstance(k, ClassInfo)] + [k for k in model.repo_classes() if k.is_subclass_of(c.name)]
     binds = [k.class_vars[t.attr] for k in family if t.attr in k.class_vars]
+    if table:
+        def literal_items(b):
+            items = b.values if isinstance(b, ast.Dict) else b.elts if isinstance(b, (ast.Tuple, ast.List)) else None
+            return bool(items) and all(isinstance(x, ast.Constant) and isinstance(x.value, str) for x in items)
+        return bool(binds) and all(literal_items(b) for b in binds)
     # None stands for "no template" (formatting None is an AttributeError, not an interpretation of data)
     return any(isinstance(b, ast.Constant) and isinstance(b.value, str) for b in binds) and \
         all(isinstance(b, ast.Constant) and (isinstance(b.value, str) or b.value is None) for b in binds)
